@@ -158,7 +158,15 @@ def alphabet(world, max_writes):
                 out.append(Op(f"w.repay[{t.name},None]", write(lambda t=t: m.repay(t)), True, "repay"))
                 out.append(Op(f"w.repay[{t.name},part,WETH]", write(lambda t=t: m.repay(t, m.get_borrow(t).amount / 4, True, W)), True, "repay"))
         if ctx.bar + 1 < len(ctx.index):
-            out.append(Op("w.advance", write(lambda: ctx.advance()), False, "advance"))
+            def adv():
+                # the strategy's after_bar hook runs between update() (liquidation) and the next bar's status refresh: views read there
+                # must be fresh too, so they are compared right after the real update() as well
+                ctx.end_bar()
+                hook = getattr(ctx, "after_update", None)
+                if hook is not None:
+                    hook(ctx)
+                ctx.begin_bar(ctx.bar + 1)
+            out.append(Op("w.advance", write(adv), False, "advance"))
         return out
     return ops
 
@@ -166,6 +174,8 @@ def alphabet(world, max_writes):
 def close(got, want: Fraction, tol=REL, abs_=Fraction(0)):
     if want is None:
         return got == Decimal("inf")
+    if not Decimal(got).is_finite():
+        return False
     g = F(got)
     return abs(g - want) <= abs_ + tol * max(abs(want), 1)
 
@@ -176,6 +186,7 @@ class Oracle:
         self.world = world
 
     def on_state(self, ctx, hist):
+        ctx.hist_ref = list(hist)
         self.part.count("states_visited")
         self.part.sample({"history": list(hist)}, every=997)
 
@@ -189,13 +200,24 @@ class Oracle:
             return
         if op.kind == "advance" and len(ctx.actions) > snap["n_actions"]:
             part.count("liquidating_bars")
+        self.guarded_check(ctx, hist, op)
+
+    def guarded_check(self, ctx, hist, op, phase=None):
         keep = ctx.snapshot()
         try:
-            self.check_views(ctx, hist, op)
+            self.check_views(ctx, hist, op, phase)
+        except Exception as e:  # noqa: BLE001  a view that cannot even be evaluated / compared is a wrong view
+            self.part.violation(f"C13|view-unusable|{type(e).__name__}", "a derived view raised or returned something that cannot be compared with the recomputation",
+                                {"seed": getattr(self, "seed_name", "empty"), "history": list(hist)}, {"error": repr(e)[:200]})
         finally:
             ctx.restore(keep)
 
-    def check_views(self, ctx, hist, op):
+    def after_update(self, ctx):
+        class _K:
+            kind = "update"
+        self.guarded_check(ctx, list(getattr(ctx, "hist_ref", [])) + ["w.advance"], _K, "after-update(after_bar hook)")
+
+    def check_views(self, ctx, hist, op, phase=None):
         part = self.part
         ad = ctx.adapters[0]
         m = ad.market
@@ -203,7 +225,7 @@ class Oracle:
         case = {"seed": getattr(self, "seed_name", "empty"), "history": list(hist)}
         sup, bor = ad.ref_positions()
         risk = ad.ref_risk()
-        last = "after-read" if op.kind == "read" else f"after-{op.kind}"
+        last = phase or ("after-read" if op.kind == "read" else f"after-{op.kind}")
         ts = ctx.index[ctx.bar]
 
         def bad(view, detail):
@@ -275,7 +297,13 @@ def run_partition(args):
     part = Part(seed)
     orc = Oracle(part, world)
     orc.seed_name = seed_name
-    stats = kit.explore(seeded_build(world, seed_name), alphabet(world, writes), 2 * writes + 1, 99, orc.on_transition,
+    sb = seeded_build(world, seed_name)
+
+    def build():
+        ctx = sb()
+        ctx.after_update = orc.after_update
+        return ctx
+    stats = kit.explore(build, alphabet(world, writes), 2 * writes + 1, 99, orc.on_transition,
                         on_state=orc.on_state, roots=((),), first=first)
     r = part.result()
     r["stats"] = stats
@@ -324,8 +352,12 @@ def replay(run: Run, path):
     orc = Oracle(part, world)
     orc.seed_name = data["case"].get("seed", "empty")
     ctx = seeded_build(world, orc.seed_name)()
+    ctx.after_update = orc.after_update
     alph = alphabet(world, 9)
+    if hist and hist[-1] == "w.advance" and "after-update" in data["signature"]:
+        hist = hist[:-1] + ["w.advance"]
     for i, lab in enumerate(hist):
+        ctx.hist_ref = hist[:i]
         ops = {o.label: o for o in alph(ctx)}
         snap = ctx.snapshot()
         out = kit.apply(ctx, ops[lab])
